@@ -4,6 +4,8 @@ import (
 	"context"
 	"fmt"
 	"net"
+	"os"
+	"path/filepath"
 	"runtime/debug"
 	"strings"
 	"time"
@@ -27,13 +29,38 @@ type UDP struct {
 	panicCh chan string
 	seq     int
 	done    chan struct{}
+	tmpDir  string
 }
 
 // NewUDP starts receiver (one reader, the given receive batch size) and parser.
 func NewUDP(ns string, ignoreHost bool, estimatedTags, batch int) (*UDP, error) {
-	pc, err := net.ListenPacket("udp", "127.0.0.1:0")
+	return newDatagramFront("udp", "127.0.0.1:0", ns, ignoreHost, estimatedTags, batch)
+}
+
+// NewUnixgram is NewUDP over a unix datagram socket (what a metrics-addr beginning with "/" makes the server listen
+// on): it carries datagrams up to the full size of a receive buffer, 65535 bytes. The sender has no address, every
+// datapoint's source is gostatsd.UnknownSource.
+func NewUnixgram(ns string, ignoreHost bool, estimatedTags, batch int) (*UDP, error) {
+	dir, err := os.MkdirTemp("", "vgram")
 	if err != nil {
 		return nil, err
+	}
+	u, err := newDatagramFront("unixgram", filepath.Join(dir, "s.sock"), ns, ignoreHost, estimatedTags, batch)
+	if err != nil {
+		os.RemoveAll(dir)
+		return nil, err
+	}
+	u.tmpDir = dir
+	return u, nil
+}
+
+func newDatagramFront(network, addr, ns string, ignoreHost bool, estimatedTags, batch int) (*UDP, error) {
+	pc, err := net.ListenPacket(network, addr)
+	if err != nil {
+		return nil, err
+	}
+	if uc, ok := pc.(*net.UnixConn); ok {
+		_ = uc.SetReadBuffer(4 << 20)
 	}
 	if uc, ok := pc.(*net.UDPConn); ok {
 		_ = uc.SetReadBuffer(4 << 20) // room for a queue of largest-size datagrams while the parser is held
@@ -59,7 +86,10 @@ func NewUDP(ns string, ignoreHost bool, estimatedTags, batch int) (*UDP, error) 
 	go guard("parser", func() { dp.Run(ctx) })
 	go dp.RunMetricsContext(ctx)
 	go recv.RunMetricsContext(ctx)
-	u.client, err = net.Dial("udp", u.Addr)
+	u.client, err = net.Dial(network, u.Addr)
+	if uc, ok := u.client.(*net.UnixConn); ok {
+		_ = uc.SetWriteBuffer(1 << 20)
+	}
 	if err != nil {
 		cancel()
 		return nil, err
@@ -145,5 +175,8 @@ func (u *UDP) Close() {
 	select {
 	case <-u.done:
 	case <-time.After(10 * time.Second):
+	}
+	if u.tmpDir != "" {
+		os.RemoveAll(u.tmpDir)
 	}
 }
